@@ -1055,7 +1055,9 @@ func (t *Topic) saveAndBroadcastMessage(msg *ClientComMessage, asUid types.Uid, 
 	t.lastID++
 	t.touched = msg.Timestamp
 
-	if userFound {
+	if userFound && markedReadBySender {
+		// The store marks the message as read by the sender only if the sender is a reader
+		// (and the update succeeded): keep the cached marks equal to the stored ones.
 		pud.readID = t.lastID
 		pud.recvID = t.lastID
 		t.perUser[asUid] = pud
